@@ -818,6 +818,10 @@ class Folder:
             return {"__adt__": adt, "__variant__": last, "#0": vals[0], "0": vals[0]}
         if last in ("from", "into") and len(vals) == 1 and isinstance(vals[0], int):
             return vals[0]
+        if last in ("unwrap", "expect") and vals and isinstance(vals[0], dict) and vals[0].get("__variant__") in ("Some", "None", "Ok", "Err") and path.startswith(("core::option::", "core::result::")):
+            if vals[0]["__variant__"] in ("Some", "Ok"):
+                return vals[0].get("#0")
+            raise Trap("unwrap on %s" % vals[0]["__variant__"])
         adt = self.facts.adts.get(canon(path)) if hasattr(self.facts, "adts") else None
         if adt and len(adt.get("variants", [])) == 1 and len(adt["variants"][0].get("fieldtys", [])) == len(vals):
             # a tuple-struct constructor used as a function (`.map(Self)`)
@@ -1605,6 +1609,12 @@ class Folder:
         if last in ("find", "position", "any", "all", "map", "filter", "rev", "len", "count", "skip", "take", "last", "next_back",
                     "contains", "first", "nth", "enumerate", "is_empty", "get", "find_map", "step_by", "zip", "chain", "collect", "sum", "cycle", "fold", "max", "min"):
             v = self.fold(a[0])
+            if isinstance(v, Cycle) and v.items and last in ("take", "skip") and len(a) == 2:
+                n0 = _loaded(self.fold(a[1]))
+                if isinstance(n0, int) and 0 <= n0 <= 100000:
+                    if last == "take":
+                        return [v.items[i % len(v.items)] for i in range(n0)]
+                    return Cycle(v.items[n0 % len(v.items):] + v.items[:n0 % len(v.items)])
             seq = self._iterable(v)
             if seq is None and last == "zip" and len(a) == 2 and isinstance(v, dict) and v.get("__adt__") == "core::ops::RangeFrom" and isinstance(v.get("start"), int):
                 other = self._iterable(_loaded(self.fold(a[1])))
